@@ -616,3 +616,19 @@ def run_jobs(jobs):
     ctx = mp.get_context("fork")
     with ctx.Pool(min(core.NCPU, len(jobs))) as pool:
         return pool.map(run_job, jobs, 1)
+
+
+# ----------------------------------------------------------------------------- shared matrix runs (C16, C17, C18)
+def matrix_runs(tier, build_jobs):
+    """jobs of the C16 matrix and their results, computed once per (tree hash, seed, tier)"""
+    from harness import l2
+    name = f"l6_{tier}_{core.seed()}"
+    got = l2.cache_get(name)
+    if got:
+        return got["jobs"], got["results"]
+    jobs = build_jobs()
+    results = run_jobs(jobs)
+    l2.cache_put(name, {"jobs": jobs, "results": results})
+    # round-trip through JSON so that cached and fresh runs look the same
+    got = json.loads(json.dumps({"jobs": jobs, "results": results}))
+    return got["jobs"], got["results"]
